@@ -22,6 +22,10 @@ structure Pkg where
   name : String
   path : String
   decls : List (String × TExpr)
+  /-- Defect switch of the go/types parser (`parser-typename-qualification`): `true` = the original
+  `strings.Replace(t.String(), pkgDot, "", 1)`, which removes the first package qualifier only; `false`
+  (the tree as it is since `fix: the go/types parser left package qualifiers in literal type names`) = all. -/
+  dropsFirstQualOnly : Bool := false
 deriving Inhabited
 
 def Pkg.lookup (p : Pkg) (n : String) : Option TExpr :=
@@ -121,11 +125,12 @@ def typeToks (p : Pkg) : TExpr → List TTok
   | .map k v => [.lit "map["] ++ typeToks p k ++ [.lit "]"] ++ typeToks p v
   | .struct _ => [.lit "struct{…}"]
 
-/-- Render with the first qualifier removed (`strings.Replace(s, pkgDot, "", 1)`), the others kept. -/
+/-- Render with the package qualifiers removed: all of them (`strings.Replace(s, pkgDot, "", -1)`), or — the
+original parser, `p.dropsFirstQualOnly` — the first one only, the others kept. -/
 def renderDropFirst (p : Pkg) : List TTok → Bool → String
   | [], _ => ""
   | .lit s :: rest, dropped => s ++ renderDropFirst p rest dropped
-  | .qual n :: rest, dropped => (if dropped then p.path ++ "." ++ n else n) ++ renderDropFirst p rest true
+  | .qual n :: rest, dropped => (if dropped && p.dropsFirstQualOnly then p.path ++ "." ++ n else n) ++ renderDropFirst p rest true
 
 def typeStringLocal (p : Pkg) (e : TExpr) : String := renderDropFirst p (typeToks p e) false
 
